@@ -627,7 +627,14 @@ func resMuts() []resMut {
 		{"no-ext-on-log", func(g *gen, r *resG) { r.Trig.Ext = nil; r.Wid = g.wg(r.Upk, r.Trig) },
 			func(g *gen) resG { return g.resOf(1, true) }},
 		{"workid", func(g *gen, r *resG) {
-			switch g.r.Intn(3) {
+			switch g.r.Intn(4) {
+			case 3:
+				// same hex digits, other letter case: a different string, hence a different unit of work
+				if up := strings.ToUpper(r.Wid); up != r.Wid {
+					r.Wid = up
+					return
+				}
+				fallthrough
 			case 0:
 				r.Wid = r.Wid[:len(r.Wid)-1] + map[bool]string{true: "0", false: "1"}[r.Wid[len(r.Wid)-1] != '0']
 			case 1:
@@ -662,7 +669,9 @@ func propMuts() []propMut {
 		{"prop-no-ext-on-log", func(g *gen, p *propG) { p.Trig.Ext = nil; p.Wid = g.wg(p.Upk, p.Trig) },
 			func(g *gen) propG { return g.propOf(1, true) }},
 		{"prop-workid", func(g *gen, p *propG) {
-			if g.r.Bool() {
+			if up := strings.ToUpper(p.Wid); up != p.Wid && g.r.Intn(3) == 0 {
+				p.Wid = up
+			} else if g.r.Bool() {
 				p.Wid = g.wg(g.upk(0), p.Trig)
 			} else {
 				p.Wid = p.Wid + "0"
